@@ -721,14 +721,15 @@ def oracle_stream(plan, tr, prop):
         out.extend(_check_deliveries(plan, tr, slots, deliv, base, clause_lost, exact_end=True))
         if fam != 'c12' and not out:
             # content of each delivered message equals its lone decode (full mode, api)
-            if front == 'api' and mode == 'full':
+            # (an interpreting decoder only: what compilation changes is C08's business, not C11's)
+            if front == 'api' and mode == 'full' and kn.get('compiled') is None:
                 exp = [it['adm'] for it, s in zip(plan['items'], segs) if (not s['damaged']) and keep(s)]
                 got = tr['deliveries']
                 for e, g in zip(exp, got):
                     if any(g.get(k) != e[k] for k in ('v', 'l', 'k')):
                         out.append(dict(base, clause='C11.c'))
                         break
-        elif fam == 'c12' and not out and front == 'api' and mode == 'full':
+        elif fam == 'c12' and not out and front == 'api' and mode == 'full' and kn.get('compiled') is None:
             und = dict(((it['adm']['b']), it['adm']) for it, s in zip(plan['items'], segs) if not s['damaged'])
             for g in tr['deliveries']:
                 e = und.get(g['b'])
@@ -833,7 +834,7 @@ def oracle(plan, tr):
         d = tr['d']
         if d['b'] != it['adm']['b'] or d['n'] != it['adm']['n']:
             return [{'property': 'C12', 'clause': 'C12.b-bytes'}]
-        if any(d[k] != it['adm'][k] for k in ('v', 'l', 'k')):
+        if plan['knobs'].get('compiled') is None and any(d[k] != it['adm'][k] for k in ('v', 'l', 'k')):
             return [{'property': 'C12', 'clause': 'C12.b-values'}]
         return []
     if fam == 'c17':
